@@ -4,7 +4,7 @@ PROPS[pid]["rules"] = [(rule id, floor of decided instances, selector over insta
 Floors are the numbers counted on the tree the rules were written against: a rule that suddenly
 matches fewer sites is a broken check (exit 2), never a silent pass.
 """
-from . import wc, mk, nc, lt, td, pm, hs, ws, tf, ec, se, bb, lc, cm, vt, bt, sr, le, wf, dp, dt, he, gl, ts, ee, sl, wp, fs, ic, nb, im, rn, mp, sp, ms, cp, sh, st, rh, vo, wi, law, cn, pr, dtr, sa, vx
+from . import lp, wc, mk, nc, lt, td, pm, hs, ws, tf, ec, se, bb, lc, cm, vt, bt, sr, le, wf, dp, dt, he, gl, ts, ee, sl, wp, fs, ic, nb, im, rn, mp, sp, ms, cp, sh, st, rh, vo, wi, law, cn, pr, dtr, sa, vx
 
 
 def has(*subs):
@@ -27,6 +27,7 @@ def vo_sel(*mods, only_label_order=False):
 
 
 RULES = {
+    "LP": {"run": lp.run},
     "WF": {"run": wf.run, "needs": ["ffi"]},
     "DP": {"run": dp.run},
     "DT": {"run": dt.run},
@@ -126,14 +127,14 @@ PROPS = {
                   ("SH", 6, has("decision_nnf::")), ("RN", 5, has("RN4")),
                   ("WP", 4, has("update_hash_and_sat_set")), ("PR", 1, has("SATSolver")),
                   ("TD", 4, None), ("VO", 1, vo_sel("decision_nnf", only_label_order=True)),
-                  ("EC", 4, None)],
+                  ("EC", 4, None), ("LP", 6, None)],
         "explanation": "Conditioning of a possibly complemented d-DNNF pointer is sign-coherent (CP on cond_helper: return "
                        "contract, node-constructor parity, comparison parity); decide/pop balance on every path of topdown_h "
                        "(TS-BAL: one pop after SAT/Unknown, none after UNSAT, none before the first decide); UNSAT and an "
                        "initially unsatisfiable CNF map to the false constant (DP); one residual-hash key for cache lookup and "
                        "insert, taken before the level's decisions (GL4); no public function leaves scratch set (SP1). Not "
                        "decided: soundness of component caching by residual hash, that models are exactly the CNF's, "
-                       "path-wise decomposability. Added: each branch conjoins all of difference_iter except the decided variable (TD); the solver constructor treats an empty clause as a conflict, a unit clause as one queued literal and a longer clause as two watches (EC); no label-order comparison in the top-down builder (VO label-order).",
+                       "path-wise decomposability. Added: each branch conjoins all of difference_iter except the decided variable (TD); the solver constructor treats an empty clause as a conflict, a unit clause as one queued literal and a longer clause as two watches (EC); no label-order comparison in the top-down builder (VO label-order). Added: LP — the bit-field packing of Literal (known-bits/provenance analysis of the generated accessors): the label and polarity fields do not overlap, each setter writes exactly what its getter reads, label(new(l,p)) = l and polarity(new(l,p)) = p, and negated/implies_true/implies_false equal their definitions by truth table.",
     },
     "C07": {
         "level": "other",
@@ -211,25 +212,25 @@ PROPS = {
                   ("SH", 5, has(":CC:")), ("ST", 2, None), ("GL", 1, has("GL6")),
                   ("CP", 3, has("cond_with_alloc", "condition_essential")), ("LC", 1, has("compile_cnf_with_assignments")),
                   ("LE", 7, None), ("NC", 1, has("DTree::from_cnf")), ("WC", 4, has("bdd-node")),
-                  ("CN", 1, has("repr::cnf::")), ("VO", 1, has("first_essential"))],
+                  ("CN", 1, has("repr::cnf::")), ("VO", 1, has("first_essential")), ("LP", 6, None)],
         "explanation": "Every variant of LogicalExpr and BottomUpPlan is compiled by its namesake operation with operands in "
                        "order, a dtree becomes a conjunction of clause disjunctions of the literal's own label and polarity "
                        "with the empty clause false (DP; none of these arms is executed by the test-suite); empty-formula / "
                        "empty-clause / satisfied-literal shortcuts and accumulator seeds of the CNF compilers (FS); the "
                        "default `or` is De Morgan (DT). Not decided: that clause sorting and merge orders preserve the "
-                       "function (and is AC, which is C01's business). Added: compile_cnf_with_assignments treats a literal by its status under the assignment only (satisfied: clause becomes true; falsified: dropped; unassigned: disjoined), checked over all (assignment, polarity) cases (LC). Added after the fourth seeding round: DTree::from_cnf turns every clause into a leaf (NC: every iteration of a loop over the items pushes onto its accumulator; an iterator chain from the items to collect() has no filter/skip/take/dedup) - a dropped clause gives the result extra models while everything downstream stays consistent. Ownership (WC bdd-node): BddBuilder::get_or_insert interns whatever it is handed; that a node respects the variable order is established only by its callers - var, ite_helper, cond_with_alloc, smooth_helper (or private helpers called only from them). Any other caller is reported: it would have to bring its own ordering argument.",
+                       "function (and is AC, which is C01's business). Added: compile_cnf_with_assignments treats a literal by its status under the assignment only (satisfied: clause becomes true; falsified: dropped; unassigned: disjoined), checked over all (assignment, polarity) cases (LC). Added after the fourth seeding round: DTree::from_cnf turns every clause into a leaf (NC: every iteration of a loop over the items pushes onto its accumulator; an iterator chain from the items to collect() has no filter/skip/take/dedup) - a dropped clause gives the result extra models while everything downstream stays consistent. Ownership (WC bdd-node): BddBuilder::get_or_insert interns whatever it is handed; that a node respects the variable order is established only by its callers - var, ite_helper, cond_with_alloc, smooth_helper (or private helpers called only from them). Any other caller is reported: it would have to bring its own ordering argument. Added: LP — the bit-field packing of Literal (known-bits/provenance analysis of the generated accessors): the label and polarity fields do not overlap, each setter writes exactly what its getter reads, label(new(l,p)) = l and polarity(new(l,p)) = p, and negated/implies_true/implies_false equal their definitions by truth table.",
     },
     "C09": {
         "level": "other",
         "rules": [("WP", 14, has("unit_prop")), ("TS", 5, has("TS-STK")), ("WI", 1, None), ("PR", 1, has("SATSolver")),
                   ("LT", 2, has("UnitPropagate")), ("PM", 5, has("::get:", "::unset:", "::is_set:", "::lit_implied:", "::lit_neg_implied:")),
-                  ("WS", 24, None), ("TF", 1, None), ("EC", 4, None), ("LC", 1, has("UnitPropagate::decide"))],
+                  ("WS", 24, None), ("TF", 1, None), ("EC", 4, None), ("LC", 1, has("UnitPropagate::decide")), ("LP", 6, None)],
         "explanation": "Every pos/neg watch-list / occurrence-table access in unit_prop.rs is selected by the polarity of "
                        "the same literal that indexes it, insertions go to the literal's own table, reads keyed by one "
                        "literal use one side (WP); SATSolver::decide pushes exactly one state on non-UNSAT paths and none on "
                        "UNSAT, pop pops one, new leaves two (TS-STK) — the structural half of 'pop restores the previous "
                        "state'. Not decided: soundness and fixpoint of propagation in general, the satisfied flag, hash "
-                       "injectivity. Added: index spaces of the watch scheme - label / clause index / position in a watch list - are respected at all 32 uses (WS); the tautology filter ranges over all pairs because Literal's packed order is polarity-major (TF); clause-length cases of the constructor (EC); the PartialModel queries agree with the two-set definition (PM); watch tables keep their label indexing (LT). Added: the satisfied-clause scan of decide depends on the literal's status only (LC); the residual-hash update refers to one base state throughout (WP3).",
+                       "injectivity. Added: index spaces of the watch scheme - label / clause index / position in a watch list - are respected at all 32 uses (WS); the tautology filter ranges over all pairs because Literal's packed order is polarity-major (TF); clause-length cases of the constructor (EC); the PartialModel queries agree with the two-set definition (PM); watch tables keep their label indexing (LT). Added: the satisfied-clause scan of decide depends on the literal's status only (LC); the residual-hash update refers to one base state throughout (WP3). Added: LP — the bit-field packing of Literal (known-bits/provenance analysis of the generated accessors): the label and polarity fields do not overlap, each setter writes exactly what its getter reads, label(new(l,p)) = l and polarity(new(l,p)) = p, and negated/implies_true/implies_false equal their definitions by truth table.",
     },
     "C12": {
         "level": "other",
@@ -271,15 +272,15 @@ PROPS = {
     },
     "C15": {
         "level": "other",
-        "rules": [("EE", 2, None), ("IC", 5, has("repr::cnf::")), ("WP", 2, has("repr::cnf::")),
+        "rules": [("EE", 3, None), ("IC", 5, has("repr::cnf::")), ("WP", 2, has("repr::cnf::")),
                   ("FS", 3, has("repr::cnf::", "assignment_weight")), ("CN", 2, None),
                   ("PR", 1, has("CnfHasher")), ("LT", 2, has("CnfHasher")),
-                  ("PM", 9, None), ("HS", 5, None), ("LC", 2, has("is_sat_partial", "Cnf::eval", "Cnf::condition"))],
+                  ("PM", 9, None), ("HS", 5, None), ("LC", 2, has("is_sat_partial", "Cnf::eval", "Cnf::condition")), ("LP", 6, None)],
         "explanation": "Brute-force counting leaves its enumeration loop only when the assignment iterator is exhausted (EE); "
                        "Cnf's variable count is max label + 1 (IC); the residual hasher's pos/neg tables are selected and "
                        "indexed by the same literal (WP); counting accumulators are seeded with zero/one (FS). Not decided: "
                        "agreement of eval / condition / is_sat_partial / the hasher's 'only then' direction with their "
-                       "definitions. Added: PartialModel set/unset/get/is_set/lit_implied/lit_neg_implied and its constructors/iterators follow the two-set definition (PM, abstract interpretation over membership pairs); CnfHasher::hash skips a satisfied clause entirely, skips a falsified literal, multiplies an unassigned literal's prime and accumulates every clause product (HS); pos_lits/neg_lits keep their label indexing (LT). Added: Cnf::eval and is_sat_partial mark a clause satisfied exactly for a true literal, Cnf::condition drops the clause for the conditioning literal, drops the literal for its complement and keeps every other literal - each interpreted over all (relation, polarity) cases (LC).",
+                       "definitions. Added: PartialModel set/unset/get/is_set/lit_implied/lit_neg_implied and its constructors/iterators follow the two-set definition (PM, abstract interpretation over membership pairs); CnfHasher::hash skips a satisfied clause entirely, skips a falsified literal, multiplies an unassigned literal's prime and accumulates every clause product (HS); pos_lits/neg_lits keep their label indexing (LT). Added: Cnf::eval and is_sat_partial mark a clause satisfied exactly for a true literal, Cnf::condition drops the clause for the conditioning literal, drops the literal for its complement and keeps every other literal - each interpreted over all (relation, polarity) cases (LC). Added: LP — the bit-field packing of Literal (known-bits/provenance analysis of the generated accessors): the label and polarity fields do not overlap, each setter writes exactly what its getter reads, label(new(l,p)) = l and polarity(new(l,p)) = p, and negated/implies_true/implies_false equal their definitions by truth table.",
     },
     "C16": {
         "level": "proof",
@@ -294,11 +295,11 @@ PROPS = {
         "level": "other",
         "rules": [("DP", 12, has("from_sexpr", "VTreeSerializer", "from_dimacs", "to_dimacs")), ("IC", 1, has("from_dimacs")),
                   ("CP", 6, has("serialize::")), ("CN", 1, has("repr::cnf::")), ("SR", 3, None), ("LE", 7, None),
-                  ("NC", 5, has("from_dimacs", "to_dimacs")), ("SP", 0, has("SP1:serialize", "SP1:ffi::bdd::bdd_to_json"))],
+                  ("NC", 5, has("from_dimacs", "to_dimacs")), ("SP", 0, has("SP1:serialize", "SP1:ffi::bdd::bdd_to_json")), ("LP", 6, None)],
         "explanation": "The s-expression translation and the vtree mirror map each variant to its namesake with children in "
                        "order (DP); DIMACS signs map Neg to false and Pos to true in both parsers (DP); the CNF parser "
                        "subtracts one from the 1-based DIMACS variable (IC OneBased -> Index). Not decided: model-level "
-                       "equality of parsed formulas; JSON well-formedness (serde). Added: in the s-expression parser every special case of a negated operand still denotes the negation (Not(Not e) may only shortcut to e). Added after the fourth seeding round: the DIMACS readers keep every clause and every literal of the text (NC: every iteration of a loop over the items pushes onto its accumulator; an iterator chain from the items to collect() has no filter/skip/take/dedup) - a dropped clause gives the result extra models while everything downstream stays consistent. The serialisers keep their node-to-row table in a per-call map; should one of them start to use the per-node scratch slot instead, it falls under the leak rule of C10 (SP1: every externally reachable function that sets scratch clears it on every path to return) - row indices that survive a call refer to the previous call's table (floor 0: no such instance today).",
+                       "equality of parsed formulas; JSON well-formedness (serde). Added: in the s-expression parser every special case of a negated operand still denotes the negation (Not(Not e) may only shortcut to e). Added after the fourth seeding round: the DIMACS readers keep every clause and every literal of the text (NC: every iteration of a loop over the items pushes onto its accumulator; an iterator chain from the items to collect() has no filter/skip/take/dedup) - a dropped clause gives the result extra models while everything downstream stays consistent. The serialisers keep their node-to-row table in a per-call map; should one of them start to use the per-node scratch slot instead, it falls under the leak rule of C10 (SP1: every externally reachable function that sets scratch clears it on every path to return) - row indices that survive a call refer to the previous call's table (floor 0: no such instance today). Added: LP — the bit-field packing of Literal (known-bits/provenance analysis of the generated accessors): the label and polarity fields do not overlap, each setter writes exactly what its getter reads, label(new(l,p)) = l and polarity(new(l,p)) = p, and negated/implies_true/implies_false equal their definitions by truth table.",
     },
     "C18": {
         "level": "proof",
